@@ -62,17 +62,28 @@ static string defineStruct(StructType* ST) {
   auto it = typeNames.find(ST);
   if (it != typeNames.end()) return it->second;
   static int anon = 0;
-  string name = "struct ll_" + (ST->hasName() ? sanitize(ST->getName()) : ("anon" + std::to_string(anon++)));
+  // C++ unions arrive as a struct of their largest member and are accessed through casts.  CBMC loses
+  // pointer provenance when a pointer is stored into e.g. double-typed memory, so unions are emitted as
+  // C unions that also have pointer- and word-typed views of the same bytes.
+  bool isUnion = ST->hasName() && ST->getName().startswith("union.") && !ST->isOpaque();
+  string name = string(isUnion ? "union ll_" : "struct ll_") + (ST->hasName() ? sanitize(ST->getName()) : ("anon" + std::to_string(anon++)));
   typeNames[ST] = name;
   if (ST->isOpaque()) { typeDefs.push_back(name + ";"); return name; }
   std::vector<string> fields;
   for (unsigned i = 0; i < ST->getNumElements(); i++) fields.push_back(ctype(ST->getElementType(i)));
+  const StructLayout* SL = DL->getStructLayout(ST);
   std::ostringstream os;
   os << name << " {";
+  if (isUnion) os << " struct {";
   for (unsigned i = 0; i < fields.size(); i++) os << " " << fields[i] << " f" << i << ";";
   if (fields.empty()) os << " uint8_t __empty[0];";
-  os << " }" << (ST->isPacked() ? " __attribute__((packed))" : "") << ";";
-  const StructLayout* SL = DL->getStructLayout(ST);
+  if (isUnion) {
+    os << " }" << (ST->isPacked() ? " __attribute__((packed))" : "") << ";";
+    uint64_t n = SL->getSizeInBytes();
+    if (n >= 8 && n % 8 == 0 && SL->getAlignment().value() >= 8) os << " uint8_t* ll_p[" << n / 8 << "]; uint64_t ll_w[" << n / 8 << "];";
+    os << " };";
+  } else
+    os << " }" << (ST->isPacked() ? " __attribute__((packed))" : "") << ";";
   if (!fields.empty()) {
     os << "\n_Static_assert(sizeof(" << name << ")==" << SL->getSizeInBytes() << ", \"size " << name << "\");";
     for (unsigned i = 0; i < fields.size(); i++)
